@@ -1,1 +1,416 @@
-// harnesses for src/park (child module, cfg(kani) only)
+// C02 (and the park half of C08 / C09): harnesses over the real src/park.rs.
+// Child module of src/park.rs (cfg(kani) only).
+//
+// Real code: Park::{new, park_timeout, check_park, unpark, unpark_impl, wake_up, fast_wake_up,
+// set_timeout_handle, remove_timeout_handle, delay_drop, subscribe, yield_back}, DropGuard::drop,
+// yield_now::yield_with, EventSubscriber::{new, subscribe}, CancelImpl::{is_canceled, set_co,
+// cancel, check_cancel, clear}, AtomicDuration::{store, take}, AtomicOption::{store, take}.
+// Models: the context switch (co_yield_with), "the coroutine object is resumed"
+// (run_coroutine / Scheduler::schedule record the resumption of the one coroutine token),
+// the timer (an armed entry may expire at any later moment; its handler is the mirror of the
+// timer thread's closure), crossbeam AtomicCell (one atomic cell).
+use super::*;
+use crate::scheduler::Scheduler;
+use crate::verif_shim::{gen, np, rt, sa};
+use std::panic as stdpanic;
+
+type TD = Arc<AtomicOption<CoroutineImpl>>;
+const CO: usize = 0; // number of the one coroutine of these harnesses
+
+static mut PARK: *const Park = std::ptr::null();
+static mut CANCEL: *const Cancel = std::ptr::null();
+static mut CO_RAW: usize = 0;
+static mut MAXD: usize = 1;
+
+// actors besides the parker
+static mut U_LEFT: usize = 0; // unpark() calls not started yet
+static mut U_STARTED: usize = 0;
+static mut U_SINCE_RETURN: usize = 0; // unpark() calls started since the previous park returned
+static mut X_LEFT: bool = false; // a cancel() not started yet
+static mut X_STARTED: bool = false;
+// timer model: at most one armed entry at a time (one park arms at most one)
+static mut T_DATA: Option<TD> = None; // armed and not yet expired / removed
+static mut T_FIRED: usize = 0;
+static mut T_ARMED_TOTAL: usize = 0;
+static mut IN_SUBSCRIBE: bool = false;
+static mut ARM_WINDOW: bool = false; // between add_timer and the return of subscribe (finding F2)
+static mut EXCLUDE_F2: bool = true;
+// the parker
+static mut SUSPENDED: bool = false;
+static mut RESUMED: usize = 0;
+static mut SUSPENDS: usize = 0;
+static mut DIVERGED: bool = false;
+
+fn run_u() {
+    unsafe {
+        U_LEFT -= 1;
+        U_STARTED += 1;
+        U_SINCE_RETURN += 1;
+        np::nested(|| (*PARK).unpark());
+    }
+}
+fn run_x() {
+    unsafe {
+        X_LEFT = false;
+        X_STARTED = true;
+        np::nested(|| (*CANCEL).cancel());
+    }
+}
+/// model-level peek at the registration slot (no schedule point)
+fn wait_co_empty() -> bool {
+    np::quiet(|| unsafe {
+        let w = &(*PARK).wait_co;
+        match w.take() {
+            Some(c) => {
+                w.store(c);
+                false
+            }
+            None => true,
+        }
+    })
+}
+/// An armed entry may expire at any moment - except, in the main harnesses, inside the window of
+/// known finding F2, delimited by harness-observable events: the timer is armed, `subscribe` has
+/// not returned and the coroutine has not been published in the registration slot yet.
+fn timer_may_fire() -> bool {
+    unsafe { T_DATA.is_some() && !(EXCLUDE_F2 && ARM_WINDOW && wait_co_empty()) }
+}
+/// the armed entry expires: the timer thread pops it and runs its handler
+fn run_t() {
+    unsafe {
+        let c = T_DATA.take().unwrap();
+        T_FIRED += 1;
+        np::nested(|| crate::scheduler::verif_kani::timer_event_handler(c));
+    }
+}
+fn hook() {
+    unsafe {
+        if np::DEPTH < MAXD {
+            if U_LEFT > 0 && kani::any() {
+                run_u();
+            }
+            if np::DEPTH < MAXD && timer_may_fire() && kani::any() {
+                run_t();
+            }
+            if np::DEPTH < MAXD && X_LEFT && kani::any() {
+                run_x();
+            }
+        }
+    }
+}
+
+/// "this coroutine object is made runnable": must be the suspended parker, exactly once
+fn resumed(co: CoroutineImpl) {
+    let raw = co.into_raw() as usize;
+    unsafe {
+        assert!(raw == CO_RAW, "C02: a coroutine object other than the parked one was resumed");
+        assert!(SUSPENDED, "C01/C02: coroutine resumed while it is not suspended (two residencies)");
+        assert!(RESUMED == 0, "C02: coroutine resumed twice for one suspension");
+        RESUMED += 1;
+    }
+}
+fn schedule_stub(_s: &Scheduler, co: CoroutineImpl) {
+    resumed(co)
+}
+fn run_coroutine_stub(co: CoroutineImpl) {
+    resumed(co)
+}
+fn co_cancel_data_stub(_co: &CoroutineImpl) -> &'static Cancel {
+    unsafe { &*CANCEL }
+}
+fn current_cancel_data_stub() -> &'static Cancel {
+    unsafe { &*CANCEL }
+}
+fn add_timer_stub(_s: &Scheduler, _d: Duration, co: TD) -> TimeoutHandle<TD> {
+    np::point();
+    unsafe {
+        assert!(T_DATA.is_none(), "model: second timer armed while one is pending");
+        T_ARMED_TOTAL += 1;
+        T_DATA = Some(co.clone());
+        if IN_SUBSCRIBE {
+            ARM_WINDOW = true;
+        }
+        np::quiet(|| (*rt_tq()).push(crate::timeout_list::verif_kani::mk_timeout_data(0, co)).0)
+    }
+}
+/// del_timer: the timer thread removes the entry (the model removes it at once; that an entry
+/// which cannot be unlinked fires later as a stale timer is covered by `stale` below)
+fn del_timer_stub(_s: &Scheduler, h: TimeoutHandle<TD>) {
+    np::point();
+    unsafe {
+        if !STALE_POSSIBLE || kani::any() {
+            T_DATA = None;
+        }
+    }
+    std::mem::forget(h);
+}
+static mut STALE_POSSIBLE: bool = false;
+static mut TQ: *const may_queue::mpsc_list_v1::Queue<crate::timeout_list::TimeoutData<TD>> = std::ptr::null();
+fn rt_tq() -> *const may_queue::mpsc_list_v1::Queue<crate::timeout_list::TimeoutData<TD>> {
+    unsafe { TQ }
+}
+
+/// The context switch.  The worker runs `subscribe(co)` after the switch; the coroutine then
+/// stays suspended until somebody resumes the coroutine object.
+fn co_yield_with_stub<T: std::any::Any>(v: T) {
+    let b: Box<dyn std::any::Any> = Box::new(v);
+    let es = *b.downcast::<crate::coroutine_impl::EventSubscriber>().unwrap();
+    let co = unsafe { CoroutineImpl::from_raw(CO_RAW as *mut usize) };
+    unsafe {
+        SUSPENDED = true;
+        RESUMED = 0;
+        SUSPENDS += 1;
+        IN_SUBSCRIBE = true;
+    }
+    es.subscribe(co);
+    unsafe {
+        IN_SUBSCRIBE = false;
+        ARM_WINDOW = false;
+    }
+    // suspended: everybody who is left acts now, in a solver-chosen order, each with its own
+    // schedule points (a blocked frame is inert, so this does not count as nesting)
+    unsafe {
+        let mut i = 0;
+        while RESUMED == 0 && i < 4 {
+            if U_LEFT > 0 && (kani::any() || !(timer_may_fire() || X_LEFT)) {
+                run_u();
+            } else if timer_may_fire() && (kani::any() || !X_LEFT) {
+                run_t();
+            } else if X_LEFT {
+                run_x();
+            } else {
+                break;
+            }
+            i += 1;
+        }
+        if RESUMED == 0 {
+            // nobody is left who could resume the coroutine: it is suspended for ever.  That is a
+            // violation iff the property obliges someone to wake it.
+            assert!(U_SINCE_RETURN == 0, "C02: lost wake-up: unpark() was called after the previous park returned, yet the coroutine stays parked for ever");
+            assert!(T_ARMED_NOW == 0, "C08: lost time-out: a timed park stays parked for ever");
+            assert!(!X_STARTED, "C09: a cancelled coroutine stays parked for ever");
+            kani::assume(false);
+        }
+        SUSPENDED = false;
+    }
+}
+static mut T_ARMED_NOW: usize = 0; // timed parks in progress (0/1)
+
+fn cancel_panic_stub() -> ! {
+    unsafe {
+        assert!(X_STARTED, "C09: cancel panic raised in a coroutine that was never cancelled");
+        DIVERGED = true;
+        kani::cover!(true, "cancelled coroutine reached the cancel panic");
+    }
+    kani::assume(false);
+    unreachable!()
+}
+
+macro_rules! park_harness {
+    ($(#[$m:meta])* fn $name:ident() $body:block) => {
+        #[kani::proof]
+        $(#[$m])*
+        #[kani::stub(core::sync::atomic::Atomic::<bool>::swap, sa::bool_swap)]
+        #[kani::stub(core::sync::atomic::Atomic::<bool>::load, sa::bool_load)]
+        #[kani::stub(core::sync::atomic::Atomic::<bool>::store, sa::bool_store)]
+        #[kani::stub(core::sync::atomic::Atomic::<usize>::swap, sa::usize_swap)]
+        #[kani::stub(core::sync::atomic::Atomic::<usize>::load, sa::usize_load)]
+        #[kani::stub(core::sync::atomic::Atomic::<usize>::fetch_or, sa::usize_fetch_or)]
+        #[kani::stub(crossbeam::atomic::AtomicCell::swap, rt::cell_swap)]
+        #[kani::stub(crossbeam::atomic::AtomicCell::store, rt::cell_store)]
+        #[kani::stub(crossbeam::atomic::AtomicCell::take, rt::cell_take)]
+        #[kani::stub(crate::scheduler::get_scheduler, rt::get_scheduler_stub)]
+        #[kani::stub(crate::scheduler::Scheduler::schedule, schedule_stub)]
+        #[kani::stub(crate::scheduler::Scheduler::add_timer, add_timer_stub)]
+        #[kani::stub(crate::scheduler::Scheduler::del_timer, del_timer_stub)]
+        #[kani::stub(crate::coroutine_impl::run_coroutine, run_coroutine_stub)]
+        #[kani::stub(crate::coroutine_impl::co_cancel_data, co_cancel_data_stub)]
+        #[kani::stub(crate::coroutine_impl::current_cancel_data, current_cancel_data_stub)]
+        #[kani::stub(crate::yield_now::get_co_para, rt::get_co_para_stub)]
+        #[kani::stub(crate::yield_now::yield_now, rt::yield_now_unreachable)]
+        #[kani::stub(generator::co_yield_with, co_yield_with_stub)]
+        #[kani::stub(generator::co_set_para, rt::co_set_para_stub)]
+        #[kani::stub(crate::cancel::trigger_cancel_panic, cancel_panic_stub)]
+        #[kani::stub(<crate::io::sys::cancel::CancelIoImpl as crate::cancel::CancelIo>::cancel, crate::io::sys::cancel::verif_kani::io_cancel_none)]
+        #[kani::stub(<crate::io::sys::cancel::CancelIoImpl as crate::cancel::CancelIo>::clear, crate::io::sys::cancel::verif_kani::io_clear_none)]
+        #[kani::stub(stdpanic::catch_unwind, rt::catch_unwind_stub)]
+        #[kani::stub(stdpanic::take_hook, rt::take_hook_stub)]
+        #[kani::stub(stdpanic::set_hook, rt::set_hook_stub)]
+        #[kani::stub(std::thread::panicking, np::panicking_stub)]
+        #[kani::stub(std::sync::Arc::drop_slow, rt::arc_drop_slow_stub)]
+        #[kani::stub(<core::io::CustomOwner as core::ops::Drop>::drop, rt::custom_owner_drop_stub)]
+        #[kani::stub(std::io::ErrorKind::from_prim, rt::from_prim_unreachable)]
+        fn $name() $body
+    };
+}
+
+fn setup(depth: usize) -> (&'static Park, &'static Cancel) {
+    let park: &'static Park = Box::leak(Box::new(Park::new()));
+    let cancel: &'static Cancel = Box::leak(Box::new(Cancel::new()));
+    rt::install_scheduler();
+    let co: CoroutineImpl = gen::Generator::fresh();
+    unsafe {
+        gen::SOLE = CO;
+        rt::CUR_CO = CO;
+        CO_RAW = co.into_raw() as usize;
+        PARK = park;
+        CANCEL = cancel;
+        MAXD = depth;
+        TQ = Box::into_raw(Box::new(may_queue::mpsc_list_v1::Queue::new()));
+        np::HOOK = Some(hook);
+    }
+    (park, cancel)
+}
+
+/// one park call by the parker, with the bookkeeping the oracles need
+fn do_park(park: &Park, dur: Option<Duration>) -> Result<(), ParkError> {
+    unsafe {
+        T_ARMED_NOW = if dur.is_some() { 1 } else { 0 };
+    }
+    let fired_before = unsafe { T_FIRED };
+    let r = park.park_timeout(dur);
+    unsafe {
+        // ---- per-call oracle (fresh-Blocker strictness is added by the callers) ----
+        if r == Err(ParkError::Timeout) {
+            assert!(T_FIRED > 0, "C02/C08: Timeout reported although no timer ever expired");
+        }
+        if r == Err(ParkError::Canceled) {
+            assert!(X_STARTED, "C02/C09: Canceled reported for a coroutine that was never cancelled");
+        }
+        let _ = fired_before;
+        U_SINCE_RETURN = 0;
+        T_ARMED_NOW = 0;
+    }
+    r
+}
+
+/// C02: two consecutive untimed parks on one Park against up to two unparkers (no timer, no
+/// cancel).  Never lost, never resumed twice, token not duplicated, always Ok.
+fn park_unpark(depth: usize) {
+    let (park, _c) = setup(depth);
+    let n: usize = kani::any();
+    kani::assume(n >= 1 && n <= 2);
+    unsafe { U_LEFT = n };
+    let r1 = do_park(park, None);
+    assert!(r1.is_ok(), "C02: untimed park of an uncancelled coroutine must return Ok");
+    assert!(unsafe { U_STARTED } >= 1, "C02: a fresh park returned although nobody called unpark");
+    let s1 = unsafe { SUSPENDS };
+    // a pre-emption point between the two parks
+    hook();
+    let started_before_2 = unsafe { U_STARTED };
+    let r2 = do_park(park, None);
+    assert!(r2.is_ok());
+    unsafe {
+        // token not duplicated: two parks returned, so two unparks were issued
+        assert!(U_STARTED == 2, "C02: one unpark satisfied two parks (token duplicated)");
+        kani::cover!(s1 == 1 && np::PREEMPTS > 0, "park 1 suspended, unpark landed inside park_timeout/subscribe");
+        kani::cover!(s1 == 0, "park 1 found the token (unpark before park)");
+        kani::cover!(SUSPENDS == s1 && started_before_2 == 2, "park 2 returned at once on a token left by an earlier unpark");
+        kani::cover!(SUSPENDS == s1 + 1, "park 2 suspended and was resumed");
+    }
+}
+park_harness! {
+    #[kani::unwind(5)]
+    fn c02_park_unpark_d1() { park_unpark(1) }
+}
+park_harness! {
+    #[kani::unwind(5)]
+    fn c02_park_unpark_d2() { park_unpark(2) }
+}
+
+/// C02/C08: one park on a fresh Park (what every Blocker does), timed or not, against an optional
+/// unparker and the timer.  Never parked for ever, resumed exactly once, Timeout only if the
+/// timer really expired, Ok only if somebody unparked.
+fn fresh_park_timer(depth: usize, exclude_f2: bool) {
+    let (park, _c) = setup(depth);
+    let timed: bool = kani::any();
+    unsafe {
+        EXCLUDE_F2 = exclude_f2;
+        U_LEFT = if kani::any() { 1 } else { 0 };
+        kani::assume(timed || U_LEFT > 0);
+    }
+    let r = do_park(park, if timed { Some(Duration::from_millis(3)) } else { None });
+    unsafe {
+        assert!(r != Err(ParkError::Canceled));
+        if r == Err(ParkError::Timeout) {
+            assert!(timed, "C02: Timeout from an untimed park");
+        }
+        if r.is_ok() {
+            assert!(U_STARTED > 0, "C02: fresh park returned Ok although nobody called unpark");
+        }
+        kani::cover!(r == Err(ParkError::Timeout), "timed park returned Timeout");
+        kani::cover!(r.is_ok() && timed && SUSPENDS == 1, "timed park suspended and was woken by unpark");
+        kani::cover!(r.is_ok() && timed && SUSPENDS == 1 && T_FIRED == 0 && T_DATA.is_none(), "timer removed after an early wake-up");
+    }
+}
+park_harness! {
+    #[kani::unwind(5)]
+    fn c02_fresh_park_timer_d1() { fresh_park_timer(1, true) }
+}
+park_harness! {
+    #[kani::unwind(5)]
+    fn c02_fresh_park_timer_d2() { fresh_park_timer(2, true) }
+}
+// witness harness of known finding F2 (expected to be refuted): identical, but the timer may
+// expire between `add_timer` and the end of `subscribe`
+park_harness! {
+    #[kani::unwind(5)]
+    fn c08_f2_witness_timer_expires_before_publish() { fresh_park_timer(1, false) }
+}
+
+/// C09 (park): a cancel issued at any point of a park (before, during registration, while parked,
+/// racing with an unpark).  The parker is resumed exactly once and never left parked; with
+/// cancel checking on (coroutine::park, Blocker::current) it reaches the cancel panic unless the
+/// wake-up won; with `ignore_cancel` (SyncBlocker) it gets Err(Canceled) or Ok, never a panic.
+fn park_cancel(depth: usize) {
+    let (park, _c) = setup(depth);
+    let ignore: bool = kani::any();
+    park.ignore_cancel(ignore);
+    unsafe {
+        X_LEFT = true;
+        U_LEFT = if kani::any() { 1 } else { 0 };
+    }
+    let r = do_park(park, None);
+    unsafe {
+        if r == Err(ParkError::Canceled) {
+            assert!(ignore, "C09: Err(Canceled) returned although this park re-raises cancellation itself");
+        }
+        if r.is_ok() {
+            assert!(U_STARTED > 0, "C09: park returned Ok without unpark");
+        }
+        kani::cover!(r == Err(ParkError::Canceled), "ignore_cancel park returned Canceled");
+        kani::cover!(r.is_ok() && X_STARTED, "wake-up won the race against cancel");
+    }
+}
+park_harness! {
+    #[kani::unwind(5)]
+    fn c09_park_cancel_d1() { park_cancel(1) }
+}
+park_harness! {
+    #[kani::unwind(5)]
+    fn c09_park_cancel_d2() { park_cancel(2) }
+}
+
+fn park_cancel_v(depth: usize, ignore: bool, with_u: bool) {
+    let (park, _c) = setup(depth);
+    unsafe { rt::NO_DECODE = true; }
+    park.ignore_cancel(ignore);
+    unsafe {
+        X_LEFT = true;
+        U_LEFT = if with_u { 1 } else { 0 };
+    }
+    let r = do_park(park, None);
+    assert!(r.is_ok() || r == Err(ParkError::Canceled));
+}
+park_harness! {
+    #[kani::unwind(5)]
+    fn exp_cancel_ign_nou() { park_cancel_v(1, true, false) }
+}
+park_harness! {
+    #[kani::unwind(5)]
+    fn exp_cancel_noign_nou() { park_cancel_v(1, false, false) }
+}
+park_harness! {
+    #[kani::unwind(5)]
+    fn exp_cancel_ign_u() { park_cancel_v(1, true, true) }
+}
